@@ -13,7 +13,6 @@ package main
 import (
 	"fmt"
 	"os"
-	"runtime/pprof"
 	"strings"
 	"sync"
 	"sync/atomic"
@@ -101,11 +100,6 @@ func scenarios() []scenario {
 
 func main() {
 	run = vlib.Start("C17", "exploration")
-	if pf := os.Getenv("VERIF_C17_PROF"); pf != "" { // development aid
-		f, _ := os.Create(pf)
-		_ = pprof.StartCPUProfile(f)
-		defer pprof.StopCPUProfile()
-	}
 	var scs []scenario
 	var prs []probe
 	redirects := true
@@ -167,12 +161,6 @@ func main() {
 		}(sc)
 	}
 	wg.Wait()
-	pprof.StopCPUProfile()
-	if pf := os.Getenv("VERIF_C17_PROF"); pf != "" {
-		f, _ := os.Create(pf + ".heap")
-		_ = pprof.Lookup("allocs").WriteTo(f, 0)
-		f.Close()
-	}
 	run.ReportRaces()
 	run.Assume("a reader's SETUP (roll-over counter snapshot in MIKEY) and the first packet it receives lie on the same side of a sequence-number wrap: writers hold back the ~96 packets before a wrap while a reader joins (RFC 3711 / MIKEY signal the ROC once; a receiver cannot synchronise otherwise)")
 	run.Assume("UDP: in-order subsequence; every receiver must still receive sentinel packets after the load (a receiver whose SRTP context lost synchronisation would not); tamper scenarios on UDP require the packets directly after an altered one to arrive (<= 10% missing) and at least half of the untampered packets overall; on TCP every untampered packet")
